@@ -422,9 +422,38 @@ impl Driver {
         }
     }
 
-    /// The ops that build the surviving chain up to and including height `n`.
+    /// The ops that build the surviving chain up to and including height `n` (runs of single mined
+    /// blocks with one timestamp are merged into one call).
     pub fn prefix_ops(&self, n: u64) -> Vec<Op> {
-        self.chain.iter().take(n as usize + 1).flatten().cloned().collect()
+        let mut out: Vec<Op> = Vec::new();
+        for op in self.chain.iter().take(n as usize + 1).flatten() {
+            if let (Op::Mine { n: k, ts }, Some(Op::Mine { n: pk, ts: pts })) = (op, out.last_mut()) {
+                if ts == pts {
+                    *pk += *k;
+                    continue;
+                }
+            }
+            out.push(op.clone());
+        }
+        out
+    }
+
+    /// Mine empty blocks up to (excluding) height `base`, committing in chunks so memory stays flat,
+    /// as an indexer does before the first programmable block. The calls are part of the call log, so
+    /// twins that replay the log do the same.
+    pub fn mine_to(&mut self, base: u64) -> bool {
+        let mut left = base.saturating_sub(self.next_height());
+        let mut ok = true;
+        while left > 0 {
+            let k = left.min(25_000);
+            if !self.exec(Op::Mine { n: k, ts: 1 }).is_ok() {
+                ok = false;
+                break;
+            }
+            left -= k;
+            self.exec(Op::Commit);
+        }
+        ok
     }
 }
 
@@ -451,6 +480,10 @@ pub struct Profile {
     pub p_zero_hash: u64,   // out of 100
     pub p_future_nonce: u64,
     pub use_probe: bool,
+    /// out of 100: a block with 257..300 cheap transactions (indices cross one byte)
+    pub p_big_block: u64,
+    /// out of 100: identifiers that are long / contain quotes, backslashes, non-ASCII
+    pub p_odd_ids: u64,
 }
 
 impl Default for Profile {
@@ -468,9 +501,14 @@ impl Default for Profile {
             p_zero_hash: 20,
             p_future_nonce: 30,
             use_probe: true,
+            p_big_block: 0,
+            p_odd_ids: 0,
         }
     }
 }
+
+/// How many blocks of 257..300 transactions the generators of this process produced.
+pub static BIG_BLOCKS: std::sync::atomic::AtomicU64 = std::sync::atomic::AtomicU64::new(0);
 
 pub struct World {
     pub rng: Rng,
@@ -488,6 +526,8 @@ pub struct World {
     pub hot_slots: Vec<u64>,
     pub profile: Profile,
     pub probe_base: u64,
+    /// height at which the chain is initialised (empty blocks below it are mined first)
+    pub base: u64,
 }
 
 impl World {
@@ -518,6 +558,7 @@ impl World {
             hot_slots: vec![1, 2, 3, 0xffff_0001],
             profile: Profile::default(),
             probe_base: 0x1000,
+            base: 0,
         }
     }
 
@@ -528,6 +569,15 @@ impl World {
 
     pub fn iid(&mut self) -> String {
         let u = self.uniq();
+        if self.profile.p_odd_ids > 0 && self.rng.chance(self.profile.p_odd_ids, 100) {
+            return match self.rng.below(5) {
+                0 => format!("{:064x}i{}{}", u, u % 3, "0".repeat(300)),
+                1 => format!("\"quoted\\{:x}\"i0", u),
+                2 => format!("ünï-{:x}-漢字i0", u),
+                3 => format!("{:x}", u),
+                _ => format!("{:064x}i{}\u{0}tail", u, u % 3),
+            };
+        }
         format!("{:064x}i{}", u, u % 3)
     }
 
@@ -819,7 +869,31 @@ impl World {
         if d.height < 0 {
             self.ts += 10;
             let hash = self.block_hash();
-            d.exec(Op::Init { hash, ts: self.ts, height: 0 });
+            if self.base > 0 {
+                d.mine_to(self.base);
+            }
+            d.exec(Op::Init { hash, ts: self.ts, height: self.base });
+            return;
+        }
+        if self.profile.p_big_block > 0 && !self.tools.is_empty() && self.rng.chance(self.profile.p_big_block, 100) {
+            // a block whose transaction (and log) indices cross 255 -> 256
+            BIG_BLOCKS.fetch_add(1, std::sync::atomic::Ordering::Relaxed);
+            let blk = self.block_ctx(d);
+            let n = self.rng.range(257, 300);
+            let pk = self.pks[0].clone();
+            let tool = self.tools[0].clone();
+            for i in 0..n {
+                // more than 256 logs in the block as well (log indices cross one byte)
+                let data = match i % 3 {
+                    0 => asm::tool_call(asm::OP_LOG, &[asm::word_u64(2), asm::word_u64(0xAAA0 + i % 3), asm::word_u64(0xBBB0 + i % 2), [0u8; 32], [0u8; 32], asm::word_u64(i)], &[]),
+                    1 => asm::tool_call(asm::OP_LOGS, &[asm::word_u64(3), asm::word_u64(0xAAA0 + i % 2), asm::word_u64(i << 8)], &[]),
+                    _ => asm::tool_call(asm::OP_INC, &[asm::word_u64(3)], &[]),
+                };
+                let ctx = Ctx { ts: blk.0, hash: blk.1.clone(), idx: d.ntx };
+                d.exec(Op::Call { pk: pk.clone(), target: Target::Addr(tool.clone()), data: Some(hx(&data)), enc: Enc::Hex, ctx, iid: self.iid(), len: 100_000, txid: self.txid() });
+            }
+            let blk = d.open.clone().unwrap_or(blk);
+            d.exec(Op::Finalise { ts: blk.0, hash: blk.1, count: d.ntx });
             return;
         }
         if self.rng.chance(self.profile.p_empty_block, 100) {
